@@ -15,9 +15,9 @@ CHECKS = {
               'of the property, for all rows and all linear combinations) + kernel evaluation (vm_compute) of the checker on the '
               'table the implementation built on this run, for every (class, supported size in the grid, deformation, axis); '
               'grid bound stated in evidence. Beyond the grid: per-class Gallina models (Layer P) of Toric2D, Planar2D, RotatedPlanar2D, '
-              'Toric3D, Planar3D and XCube with theorems FOR ALL SIZES (all generators pairwise commute; for Toric2D, Toric3D, Planar3D also: the '
+              'Toric3D, Planar3D, RotatedPlanar3D and XCube with theorems FOR ALL SIZES (all generators pairwise commute; for Toric2D, Toric3D, Planar3D, RotatedPlanar3D also: the '
               'listed logicals commute with the generators and X_i / Z_j anticommute exactly when i = j), tied to the implementation by '
-              'kernel comparison of the model tables with the dumped ones at every grid size. Rank n-k and the other 10 classes: grid only.'),
+              'kernel comparison of the model tables with the dumped ones at every grid size. Rank n-k and the other 9 classes: grid only.'),
         design_ref='DESIGN.md section 5 C01',
         note=TB + 'Certificates (independent subset, destabilizers) are found by untrusted Python and only checked in Coq. '
              'Supported-size families as fixed in DESIGN.md section 4.',
